@@ -364,6 +364,8 @@ pub struct Exec<'h> {
     pub level_overlap: Option<(usize, &'static str, String)>,
     /// Full multi-version dumps of SSTs by digest (files are immutable).
     pub dump_cache: std::collections::HashMap<String, Vec<crate::conserve::Entry>>,
+    /// rows of each ingest, by operation index (for Op::Reingest)
+    pub ingested_rows: std::collections::HashMap<usize, Vec<(Vec<u8>, u64, Option<Vec<u8>>)>>,
 }
 
 pub const NUM_LEVELS: usize = lsmtk::NUM_LEVELS;
@@ -430,6 +432,7 @@ impl<'h> Exec<'h> {
             c08: crate::files::FileWatch::default(),
             level_overlap: None,
             dump_cache: std::collections::HashMap::new(),
+            ingested_rows: std::collections::HashMap::new(),
         }
     }
 
@@ -751,6 +754,48 @@ impl<'h> Exec<'h> {
         s
     }
 
+    /// The table of an earlier ingest once more, byte for byte (same digest), unless a table with
+    /// that digest is live at the moment.
+    fn reingest(&mut self, i: usize, of: usize) -> Result<(), String> {
+        let rows = match self.ingested_rows.get(&of) {
+            Some(rows) => rows.clone(),
+            None => return Ok(()),
+        };
+        let path = self.root.join("tmp").join(format!("reingest-{i}.sst"));
+        let _ = std::fs::remove_file(&path);
+        let mut b = SstBuilder::new(SstOptions::default(), &path).map_err(|e| format!("{e}"))?;
+        for (k, ts, v) in rows.iter() {
+            match v {
+                Some(v) => b.put(k, *ts, v).map_err(|e| format!("{e}"))?,
+                None => b.del(k, *ts).map_err(|e| format!("{e}"))?,
+            }
+        }
+        let sealed = b.seal().map_err(|e| format!("{e}"))?;
+        let digest = setsum::Setsum::from_digest(sealed.metadata().map_err(|e| format!("{e}"))?.setsum).hexdigest();
+        drop(sealed);
+        let stalled = self.store.as_ref().map(|s| s.tree().verif_would_stall_ingest()).unwrap_or(true);
+        // Only data the tree no longer holds anywhere comes back (old versions arriving late); a
+        // second copy of entries that are still live would be a different input class.
+        let still_present = match crate::conserve::snapshot(self) {
+            Ok(snap) => snap.files.values().any(|f| f.entries.iter().any(|(k, ts, _)| rows.iter().any(|(rk, rts, _)| rk == k && rts == ts))),
+            Err(_) => true,
+        };
+        let still_present = still_present && std::env::var("STORESIM_REINGEST_DUPLICATES").is_err();
+        if stalled || still_present || self.root.join("sst").join(format!("{digest}.sst")).exists() {
+            let _ = std::fs::remove_file(&path);
+            self.probes.hit("reingest_skipped");
+            return Ok(());
+        }
+        let tree = match self.store.as_ref() {
+            Some(Store::Tree(t)) => t,
+            _ => return Ok(()),
+        };
+        tree.ingest(&path).map_err(|e| format!("{e}"))?;
+        self.probes.hit("tables_ingested_again_with_an_earlier_digest");
+        let _ = std::fs::remove_file(&path);
+        Ok(())
+    }
+
     fn ingest(&mut self, i: usize, ents: &[Ent]) -> Result<(), String> {
         // Build a table with the public builder; timestamps are fresh and increasing.
         let path = self.root.join("tmp").join(format!("ingest-{i}.sst"));
@@ -765,6 +810,7 @@ impl<'h> Exec<'h> {
             ));
         }
         rows.sort_by(|a, b| a.0.cmp(&b.0).then(b.1.cmp(&a.1)));
+        self.ingested_rows.insert(i, rows.clone());
         let mut b = SstBuilder::new(SstOptions::default(), &path).map_err(|e| format!("{e}"))?;
         for (k, ts, v) in rows.iter() {
             match v {
@@ -1311,6 +1357,11 @@ impl<'h> Exec<'h> {
             }
             Op::Ingest { ents } => {
                 let r = self.ingest(i, ents);
+                self.note_store_moved();
+                r
+            }
+            Op::Reingest { of } => {
+                let r = self.reingest(i, *of);
                 self.note_store_moved();
                 r
             }
